@@ -515,10 +515,70 @@ AUTO_EXTS = ["bed", "txt", "tsv", "interval_list", "list", "gff", "gff3", "cnr",
 HINT_EXTS = ["xbed", "ttab", "ttext", "iinterval", "ggff", "bbed", "rrefflat"]
 
 
+def _author_vcf_snv(rng, nmax=12):
+    """a VCF of single-base substitutions (what cnvkit reads VCFs for), 0..2 samples, unsorted; every record is the
+    one-base region [POS-1, POS)"""
+    rows = _regions(rng, nmax=nmax)
+    nsamp = rng.randint(0, 2)
+    lines = [["##fileformat=VCFv4.2"]]
+    if rng.random() < 0.5:
+        lines.append(["##source=harness"])
+    for c in sorted({r[0] for r in rows}):
+        lines.append([f"##contig=<ID={c}>"])
+    lines += [['##INFO=<ID=DP,Number=1,Type=Integer,Description="d">'],
+              ['##FORMAT=<ID=GT,Number=1,Type=String,Description="g">'],
+              ['##FORMAT=<ID=AD,Number=R,Type=Integer,Description="a">'],
+              ['##FORMAT=<ID=DP,Number=1,Type=Integer,Description="d">']]
+    hdr = ["#CHROM", "POS", "ID", "REF", "ALT", "QUAL", "FILTER", "INFO"]
+    if nsamp:
+        hdr += ["FORMAT"] + [f"S{k}" for k in range(nsamp)]
+    lines.append(hdr)
+    trows = []
+    for c, s, _e in rows:
+        ref = rng.choice("ACGT")
+        alt = rng.choice([b for b in "ACGT" if b != ref])
+        l = [c, str(s + 1), rng.choice([".", "rs12"]), ref, alt, rng.choice([".", "30", "99.5"]), rng.choice([".", "PASS"]),
+             rng.choice([".", "DP=31"])]
+        if nsamp:
+            l.append("GT:AD:DP")
+            for _ in range(nsamp):
+                a, b = rng.randint(0, 40), rng.randint(0, 40)
+                l.append(f"{rng.choice(['0/1', '1/1', '0/0', '0|1'])}:{a},{b}:{a + b}")
+        lines.append(l)
+        trows.append([c, s, s + 1, [["s", alt], ["s", ref]]])
+    return lines, {"names": ["alt", "ref"], "rows": trows}
+
+
+def _auto_options(rng, i, handle_ok=True):
+    """the doors to auto-detection: read_auto(path), read_auto(open handle), tabio.read(path, "auto")"""
+    k = rng.random()
+    if k < 0.2 and handle_ok:
+        i["via"] = "handle"
+    elif k < 0.4:
+        i["via"] = "fmt-auto"
+    if i.get("lines") is not None and rng.random() < 0.15:
+        i["nonl"] = True
+    return i
+
+
 def _auto_case(rng, tag=None):
+    c = _auto_case0(rng, tag)
+    c["in"] = _auto_options(rng, c["in"], handle_ok=c["in"].get("direct") != "vcf")
+    return c
+
+
+def _auto_case0(rng, tag=None):
     """a file (harness-authored or cnvkit-written) with \\w-only names, sniffed and read through read_auto"""
     k = rng.random()
     ext = rng.choice(AUTO_EXTS)
+    if rng.random() < 0.07:
+        # VCF: recognised by its header; read_auto hands it to the pysam-based reader (a path is required).
+        # Only single-base substitutions without END: see proposed_fixes/C08-vcf-end-ignored.md (the pysam-based
+        # reader ignores INFO/END and takes start + len(ALT) as the end of every other record)
+        lines, truth = _author_vcf_snv(rng)
+        return {"op": "fmt_auto", "tag": tag or "auto-authored-vcf",
+                "in": {"ext": rng.choice(["vcf", "txt", "", "bed"]), "lines": lines, "direct": "vcf", "written_by": None,
+                       "keep": ["alt", "ref"], "truth": truth}}
     if rng.random() < 0.08:
         # file-name hint in force: the caller named the format, only the sniff answer itself is compared
         fmt = rng.choice(["bed", "bed4", "tab", "interval", "text", "gff"])
@@ -544,8 +604,11 @@ def _auto_case(rng, tag=None):
     wfmt = rng.choice(["tab", "bed3", "bed4", "interval", "text"])
     cna = wfmt == "tab" and rng.random() < 0.5
     t0 = _table(rng, cna=cna, nmax=12, dotted=False)
+    wb = {"wfmt": wfmt, "cna": cna, "t0": t0}
+    if rng.random() < 0.3:
+        wb["sub"] = rng.randint(1, 10 ** 6)
     return {"op": "fmt_auto", "tag": tag or f"auto-written-{wfmt}",
-            "in": {"ext": ext, "lines": None, "direct": wfmt, "written_by": {"wfmt": wfmt, "cna": cna, "t0": t0}, "keep": None}}
+            "in": {"ext": ext, "lines": None, "direct": wfmt, "written_by": wb, "keep": None}}
 
 
 def _is_word(s):
@@ -817,20 +880,26 @@ def run_impl(case):
             p = os.path.join(d, "input" + ("." + i["ext"] if i["ext"] else ""))
             wb = i.get("written_by")
             if wb:
-                tabio.write(_array(wb["t0"], wb["cna"]), p, wb["wfmt"])
+                _write_by(wb, p)
                 lines = _read_lines(p)
             else:
                 lines = i["lines"]
-                _write_lines(p, lines)
+                _write_lines(p, lines, i.get("nonl"))
             out = {"lines": lines}
             try:
                 out["fmt"] = tabio.sniff_region_format(p)
             except ValueError as e:
                 out["fmt_error"] = "ValueError"
                 return out
-            if out["fmt"] == "vcf" or i.get("direct") is None:
+            if i.get("direct") is None or (out["fmt"] == "vcf") != (i["direct"] == "vcf"):
                 return out
-            auto = tabio.read_auto(p)
+            if i.get("via") == "handle":
+                with open(p) as fh:
+                    auto = tabio.read_auto(fh)
+            elif i.get("via") == "fmt-auto":
+                auto = tabio.read(p, "auto")
+            else:
+                auto = tabio.read_auto(p)
             direct = tabio.read(p, i["direct"])
             out["auto"] = _canon(auto.data, i.get("keep"))
             out["direct"] = _canon(direct.data, i.get("keep"))
@@ -971,6 +1040,27 @@ def _cmp_file(m, lines, what):
     return []
 
 
+def _canon_rank(c):
+    """rank of a canonical chromosome name in the order the property spells out (1 < 2 < 10 < X < Y < M)"""
+    c = c[3:] if c[:3].lower() == "chr" else c
+    if c.isdigit() and len(c) <= 3 and c.isascii():
+        return int(c)
+    return {"X": 1000, "Y": 1001, "M": 1002, "MT": 1002}.get(c)
+
+
+def _order_clauses(rows):
+    """the sort clauses, restated in the harness for tables the Lean driver does not see (VCF through pysam)"""
+    out = []
+    for k, a in enumerate(rows):
+        for b in rows[k + 1:]:
+            ra, rb = _canon_rank(a[0]), _canon_rank(b[0])
+            if ra is not None and rb is not None and ra > rb and "natural_chromosome_order" not in out:
+                out.append("natural_chromosome_order")
+            if a[0] == b[0] and (a[1], a[2]) > (b[1], b[2]) and "start_then_end_order" not in out:
+                out.append("start_then_end_order")
+    return out
+
+
 def _outside(msg):
     return isinstance(msg, str) and msg.startswith("outside model")
 
@@ -1011,6 +1101,17 @@ def judge(case, impl, resp):
         dis = [] if got == out else [f"sniff: model {out} impl {got}"]
         if "auto" not in impl:
             spec = []
+            if case["in"].get("direct") == "vcf":
+                spec = ["auto_detection_fails"]  # a VCF that was not recognised as one
+        elif case["in"].get("truth") is not None:
+            # VCF (read through pysam, outside the Lean model): the records against the regions the harness wrote
+            want = sorted((r[0], r[1], r[2], r[3][0][1], r[3][1][1]) for r in case["in"]["truth"]["rows"])
+            have = sorted((r[0], r[1], r[2], r[3][0][1], r[3][1][1]) for r in impl["auto"]["rows"])
+            if [w[:3] for w in want] != [h[:3] for h in have]:
+                spec = spec + ["coords_zero_based_half_open"]
+            elif want != have:
+                spec = spec + ["names_kept"]
+            spec = spec + _order_clauses(impl["auto"]["rows"])
         return spec, dis, None
     if op == "fmt_roundtrip":
         if _is_err(impl):
